@@ -120,8 +120,17 @@ impl<'a> Chk<'a> {
 
     /// Save + reopen leg: the reopened package reports the same time.
     fn reopen(&mut self, ns: i128) {
+        self.reopen_padded(ns, None)
+    }
+
+    /// Same, with a comments property of `pad` characters stored in front of the time, which moves the
+    /// eight bytes of the stored time to any offset of the summary stream (sector / buffer boundaries).
+    fn reopen_padded(&mut self, ns: i128, pad: Option<usize>) {
         let (m, mut p) = new_pkg();
         let r = guarded(|| {
+            if let Some(n) = pad {
+                p.summary_info_mut().set_comments("c".repeat(n));
+            }
             p.summary_info_mut().set_creation_time(ns_to_time(ns));
             let before = p.summary_info().creation_time();
             p.flush().map_err(|e| e.to_string())?;
@@ -135,8 +144,8 @@ impl<'a> Chk<'a> {
                 if a != b {
                     self.rep.violation(
                         "C18/reopen".to_string(),
-                        format!("creation time {} ns reads {:?} before and {:?} after save+reopen", ns, a.map(time_to_ns), b.map(time_to_ns)),
-                        json!({"ns": ns.to_string(), "reopen": true}),
+                        format!("creation time {} ns (comments of {:?} characters before it) reads {:?} before and {:?} after save+reopen", ns, pad, a.map(time_to_ns), b.map(time_to_ns)),
+                        json!({"ns": ns.to_string(), "reopen": true, "pad": pad}),
                     );
                 }
             }
@@ -203,7 +212,7 @@ pub fn run(ctx: &Ctx) -> Report {
             c.one(ns, false, "replay");
         }
         if w["reopen"].as_bool() == Some(true) {
-            c.reopen(ns);
+            c.reopen_padded(ns, w["pad"].as_u64().map(|x| x as usize));
         }
         return rep;
     }
@@ -215,7 +224,9 @@ pub fn run(ctx: &Ctx) -> Report {
         let (_m, pkg) = new_pkg();
         let mut c = Chk { rep: &mut rep, pkg, last: None };
         // X: every tick within +-300 ticks of the anchors, sub-tick ns 0..199
-        let anchors = [(T1601, "near1601"), (0i128, "near1970"), (TMAX, "nearmax")];
+        // (+-DMAX: the largest distance from 1970 that still fits 64 bits of ticks; beyond the format's range)
+        const DMAX: i128 = (u64::MAX as i128) * 100;
+        let anchors = [(T1601, "near1601"), (0i128, "near1970"), (TMAX, "nearmax"), (DMAX, "plus-2^64-ticks-from-1970"), (-DMAX, "minus-2^64-ticks-from-1970")];
         let mut k = 0usize;
         for (a, class) in anchors.iter() {
             for tick in -300i128..=300 {
@@ -248,6 +259,20 @@ pub fn run(ctx: &Ctx) -> Report {
             ] {
                 c.one(ns, false, class);
                 c.reopen(ns);
+            }
+        }
+        // the stored time at every offset around the 4 KiB / 8 KiB / 16 KiB boundaries of the summary stream
+        {
+            let mut k = 0usize;
+            for base in [3_800usize, 7_900, 16_100] {
+                for pad in base..base + 600 {
+                    k += 1;
+                    if k % n != shard {
+                        continue;
+                    }
+                    c.reopen_padded(1_700_000_000_123_456_700 + pad as i128 * 100, Some(pad));
+                    c.rep.count("reopen_padded_samples");
+                }
             }
         }
         // S: random times, sorted in blocks for the monotonicity law
